@@ -160,16 +160,60 @@ func runC20(c *Ctx, r *Report) {
 					if isMethodOn(cf, "hashicorp/golang-lru", "Cache", "Add") && len(x.Call.Args) == 3 {
 						nAddAll++
 						v := x.Call.Args[2]
-						fromKey := false
-						for y := range backSlice(v, nil) {
-							if c2, ok := y.(*ssa.Call); ok {
-								if f2 := calleeOf(c2); f2 != nil {
-									if (f2.Pkg() != nil && f2.Pkg().Path() == "github.com/ipfs/go-datastore" && f2.Name() == "Get") || f2.Name() == "Raw" {
-										fromKey = true
+						var keyDerived func(v ssa.Value, in *ssa.Function, depth int) bool
+						keyDerived = func(v ssa.Value, in *ssa.Function, depth int) bool {
+							var pars []*ssa.Parameter
+							for y := range backSlice(v, nil) {
+								if c2, ok := y.(*ssa.Call); ok {
+									if f2 := calleeOf(c2); f2 != nil {
+										if (f2.Pkg() != nil && f2.Pkg().Path() == "github.com/ipfs/go-datastore" && f2.Name() == "Get") || f2.Name() == "Raw" {
+											return true
+										}
+									}
+								}
+								if par, ok := y.(*ssa.Parameter); ok && par.Parent() == in {
+									if _, isSlice := par.Type().Underlying().(*types.Slice); isSlice {
+										pars = append(pars, par)
 									}
 								}
 							}
+							// a caching helper: what it caches is what every caller hands it
+							if depth > 2 || len(pars) == 0 {
+								return false
+							}
+							for _, par := range pars {
+								idx := -1
+								for i, pp := range in.Params {
+									if pp == par {
+										idx = i
+									}
+								}
+								sites, good := 0, 0
+								for _, g := range p.Fns {
+									if g.Pkg.PkgPath != p.pkgPath("keystore") || g.Orig != nil {
+										continue
+									}
+									sg := p.SSAFunc(g)
+									if sg == nil {
+										continue
+									}
+									allInstrs(sg, false, func(ins ssa.Instruction) {
+										if c3, ok := ins.(*ssa.Call); ok && c3.Call.StaticCallee() == in && idx < len(c3.Call.Args) {
+											sites++
+											nAddAll++
+											if keyDerived(c3.Call.Args[idx], sg, depth+1) {
+												good++
+											}
+										}
+									})
+								}
+								if sites > 0 && good == sites {
+									return true
+								}
+							}
+							return false
 						}
+						fromKey := keyDerived(v, sf, 0)
 						r.Check(fromKey, "R-C20.5", r.Key("R-C20.5", f, "cache.Add", ""), x.Pos(),
 							"the cached value is an encoding of key bytes read from the datastore or just generated",
 							"a value that is not key material (e.g. a nil 'not found' marker) is put in the cache: another keystore instance over the same datastore can create the key meanwhile, and this instance keeps answering from its marker — then re-creates the key, so the same id yields a different identity")
